@@ -168,7 +168,7 @@ CHECKS = {
         "blocked, not forwarded); non-trivial = at least one kill or waitpid record observed",
         {"kill_records": 500, "waitpid_records": 500, "post_reap_signal_calls": 50}, assumptions=KERNEL_TRUST),
     "C07": scen_check(
-        "eng_life", "exploration",
+        [("eng_life", "asan"), ("eng_life", "asan-nd", {"tiers": ["thorough"]})], "exploration",
         "stop requests from the grid action^3 in {noop,wait,terminate,kill,7} x timeout^3 in {0,40,INFINITE,DEADLINE} "
         "(thorough: complete grid x 4 rotations of child behaviour/deadline/state; quick: every action triple x3 plus "
         "a seeded sample) compared with an executable model of the documented contract on the same virtual timeline "
@@ -177,13 +177,13 @@ CHECKS = {
         {"stops_checked": 3000, "expected_hangs": 20, "timeouts": 60, "statuses": 500}, assumptions=KERNEL_TRUST,
         exhaustive_thorough=False),
     "C15": scen_check(
-        "eng_life", "exploration",
+        [("eng_life", "asan"), ("eng_life", "asan-nd", {"tiers": ["thorough"]})], "exploration",
         "destroy in the states {running x3, ended, reaped, not started, failed start, parent side of fork} with default "
         "and random stop policies, deadlines {none,60,expired} and every child behaviour; signals/time compared "
         "with the stop model, ledger + kernel ground truth after destroy; non-trivial = a destroy was checked",
         {"destroys": 2000, "expected_hangs": 10, "states": 6}, assumptions=KERNEL_TRUST),
     "C08": scen_check(
-        "eng_poll", "exploration",
+        [("eng_poll", "asan"), ("eng_poll", "asan-nd", {"tiers": ["thorough"]})], "exploration",
         "reproc_poll over 1-5 sources of kinds {no process, no deadline, deadline +30/+70/+110, expired} in every order "
         "(thorough: complete kinds^n x timeout grid for n<=3, sampled beyond; quick: complete for n<=2 + sample) with "
         "timeouts {0,20,60,200,INFINITE} and child output/exit placed before/between/after the bounds, plus a complete "
@@ -192,7 +192,7 @@ CHECKS = {
         {"polls_checked": 2500, "expired_deadline_polls": 300, "deadline_events": 120, "timeouts": 200,
          "wait_timeouts": 100, "expected_hangs": 10}, assumptions=KERNEL_TRUST),
     "C09": scen_check(
-        [("eng_poll", "asan"), ("eng_poll", "plain", {"tiers": ["thorough"], "limit": 300,
+        [("eng_poll", "asan"), ("eng_poll", "asan-nd", {"tiers": ["thorough"]}), ("eng_poll", "plain", {"tiers": ["thorough"], "limit": 300,
                               "prefix": ["valgrind", "-q", "--error-exitcode=99", "--num-callers=12"]})], "exploration",
         "random multi-source polls (1-4 sources incl. process-less ones, all 16 interest masks) over 1-3 children whose "
         "streams are put in every state (idle, data pending, closed by child, closed by parent, not a pipe, stdin full; "
@@ -215,7 +215,7 @@ CHECKS = {
          "stdin_bytes_verified": 10000000, "eof_checks": 500, "stress_children": 30, "stress_bytes_verified": 5000000},
         assumptions=KERNEL_TRUST, extra=stress_pass),
     "C16": scen_check(
-        [("eng_io", "asan"), ("eng_io", "plain", {"tiers": ["thorough"], "limit": 300,
+        [("eng_io", "asan"), ("eng_io", "asan-nd", {"tiers": ["thorough"]}), ("eng_io", "plain", {"tiers": ["thorough"], "limit": 300,
                               "prefix": ["valgrind", "-q", "--error-exitcode=99", "--num-callers=12"]})], "exploration",
         "reproc_drain / reproc_run_ex over children writing 0..1 MB in 1-5 chunks to both streams, closing streams before "
         "exiting, with err in {pipe, stdout, parent, discard}; recording sinks (every call logged and content-verified), "
